@@ -150,3 +150,34 @@ RULES += [
     ('nc_d-400_ss', '22f', (2021,), lambda c: sum(c.v('22' + x) for x in 'abcde'), NC + ' Schedule S line 22f'),
     ('nc_d-400_ss', '23f', (2021,), lambda c: sum(c.v('23' + x) for x in 'abcde'), NC + ' Schedule S line 23f'),
 ]
+
+
+def _nc_withheld(c, owners):
+    """NC income tax withheld shown on the statements of the given owners (D-400 lines 20a / 20b)."""
+    tot = 0.0
+    def owner(sec):
+        o = c.sol.get(f'{sec}.belongs_to')
+        return getattr(o, 'name', None)
+    def state(sec, key):
+        o = c.sol.get(f'{sec}.{key}')
+        return getattr(o, 'name', None)
+    c.cross = True
+    for sec in c.ev.instances('w-2'):
+        if owner(sec) in owners and state(sec, 'box_15') == 'NC':
+            tot += c.sol.get(f'{sec}.box_17', 0.0)
+    for base, pairs in (('1099-g', (('box_10a_1', 'box_11_1'), ('box_10a_2', 'box_11_2'))), ('1099-int', (('box_15_1', 'box_17_1'), ('box_15_2', 'box_17_2'))),
+                        ('1099-div', (('box_14_1', 'box_16_1'), ('box_14_2', 'box_16_2'))), ('1099-r', (('box_14_1_state', 'box_14_1'), ('box_14_2_state', 'box_14_2')))):
+        for sec in c.ev.instances(base):
+            if owner(sec) in owners:
+                for skey, akey in pairs:
+                    if state(sec, skey) == 'NC':
+                        tot += c.sol.get(f'{sec}.{akey}', 0.0)
+    return tot
+
+
+RULES += [
+    ('nc_d-400', '20a', ALL, lambda c: _nc_withheld(c, ('taxpayer', 'both')), NC + ' line 20a: your NC tax withheld (W-2 box 17 for NC, 1099 state tax boxes for NC)'),
+    ('nc_d-400', '20b', ALL, lambda c: _nc_withheld(c, ('spouse',)), NC + " line 20b: spouse's NC tax withheld"),
+    ('1040_s8812', 'clwkst_a_2', Y22, lambda c: (sum(c.opt('1040_s3.' + l, 0.0) for l in ('1', '2', '3', '4', '6d', '6e', '6f', '6l')) if c.x('1040.need_schedule_3_part_i') else 0.0),
+     'Schedule 8812 instructions, Credit Limit Worksheet A line 2: Schedule 3 lines 1, 2, 3, 4, 6d, 6e, 6f, 6l'),
+]
